@@ -23,8 +23,23 @@ pub enum RAct {
     /// fragments fs..fs+fc-1 of a sample of `tot` fragments
     DataFrag { w: u8, sn: i64, fs: u32, fc: u16, tot: u32 },
     Heartbeat { w: u8, first: i64, last: i64, count: i32, fin: bool },
-    Gap { w: u8, start: i64, base: i64, set: Vec<i64> },
-    Take { max: usize },
+    /// nbits: extra in-range (zero) bits after the highest member; dirty: the padding bits of the last bitmap word
+    /// beyond numBits are ones (RTPS leaves them undefined; they are not members)
+    Gap {
+        w: u8,
+        start: i64,
+        base: i64,
+        set: Vec<i64>,
+        #[serde(default)]
+        nbits: u32,
+        #[serde(default)]
+        dirty: bool,
+    },
+    Take {
+        max: usize,
+        #[serde(default)]
+        byinst: bool,
+    },
     /// hostile datagram(s) of a catalogue class from peer `w` (see hostile.rs)
     Hostile { w: u8, cls: String },
 }
@@ -260,11 +275,20 @@ impl Exec {
                 out.push(json!({"ev":"Heartbeat","w":w,"first":first,"last":last,"count":count,"final":fin,"acks":acks,"nfs":nfs}));
                 self.spont(others, out);
             }
-            RAct::Gap { w, start, base, set } => {
-                let list = NumSet::from_set(*base, set);
+            RAct::Gap { w, start, base, set, nbits, dirty } => {
+                let mut list = NumSet::from_set(*base, set);
+                if *nbits > 0 {
+                    list.num_bits = (list.num_bits + *nbits).min(256);
+                    list.words.resize(((list.num_bits + 31) / 32) as usize, 0);
+                }
+                if *dirty && list.num_bits % 32 != 0 {
+                    if let Some(last) = list.words.last_mut() {
+                        *last |= u32::MAX >> (list.num_bits % 32);
+                    }
+                }
                 let subs = [Sub::Gap { reader: self.reader_eid, writer: writer_eid(*w), start: *start, list }];
                 let o = self.inject(*w, &subs);
-                out.push(json!({"ev":"Gap","w":w,"start":start,"base":base,"set":set}));
+                out.push(json!({"ev":"Gap","w":w,"start":start,"base":base,"set":set,"nbits":nbits,"dirty":dirty}));
                 self.spont(o, out);
             }
             RAct::Hostile { w, cls } => {
@@ -281,8 +305,26 @@ impl Exec {
                 });
                 out.push(json!({"ev":"Hostile","cls":cls,"w":w,"n":dgs.len(),"len":total_len,"panic":m.panic.is_some(),"msg":m.panic.unwrap_or_default(),"us":m.us as u64,"alloc":m.alloc as u64,"died":"","sock":self.ingress.is_some()}));
             }
-            RAct::Take { max } => {
-                let res = self.rig.slots[0].dr().take(*max, ReadCondition::any());
+            RAct::Take { max, byinst } => {
+                // byinst: the application accesses by instance (take_instance for every key in turn, everything available);
+                // a reliable reader only, the union is what a plain take would have returned
+                let byinst = *byinst && self.reliable;
+                let res: Result<Vec<rustdds::with_key::DataSample<rustdds::verif::VSample>>, String> = if byinst {
+                    let mut all = vec![];
+                    let mut err = None;
+                    for k in 0..3u32 {
+                        match self.rig.slots[0].dr().take_instance(100_000, ReadCondition::any(), Some(k), rustdds::with_key::SelectByKey::This) {
+                            Ok(v) => all.extend(v),
+                            Err(e) => err = Some(format!("{e:?}")),
+                        }
+                    }
+                    match err {
+                        Some(e) => Err(e),
+                        None => Ok(all),
+                    }
+                } else {
+                    self.rig.slots[0].dr().take(*max, ReadCondition::any()).map_err(|e| format!("{e:?}"))
+                };
                 match res {
                     Ok(v) => {
                         let got: Vec<Value> = v
@@ -296,7 +338,7 @@ impl Exec {
                                 let g = rustdds::verif::reader_rig::guid_to_bytes(info.writer_guid());
                                 let w = writer_of_prefix(&g[0..12]);
                                 let sn: i64 = info.sample_identity().sequence_number.into();
-                                let (pid, body_ok) = match ds.value() {
+                                let (pid, body_ok, key) = match ds.value() {
                                     rustdds::with_key::Sample::Value(v) => {
                                         // identity of the bytes: id field plus exact body comparison
                                         let expect_plain = {
@@ -310,19 +352,19 @@ impl Exec {
                                                 p[16..] == v.body[..]
                                             })
                                         };
-                                        (v.id as i64, ok && v.key == (sn % 3) as u32)
+                                        (v.id as i64, ok && v.key == (sn % 3) as u32, v.key as i64)
                                     }
-                                    rustdds::with_key::Sample::Dispose(_k) => (-1, true),
+                                    rustdds::with_key::Sample::Dispose(k) => (-1, true, *k as i64),
                                 };
                                 let ts = info.source_timestamp().map(|t| (t.to_ticks() >> 32) as i64).unwrap_or(-1);
                                 // a body that is not byte-identical is reported as a different payload id
-                                json!({"w":w,"sn":sn,"pid": if body_ok {pid} else {-2},"ts":ts})
+                                json!({"w":w,"sn":sn,"pid": if body_ok {pid} else {-2},"ts":ts,"k":key})
                             })
                             .collect();
-                        out.push(json!({"ev":"Take","max":max,"got":got,"holes":true}));
+                        out.push(json!({"ev":"Take","max":max,"got":got,"holes":true,"byinst":byinst}));
                     }
                     Err(e) => {
-                        out.push(json!({"ev":"TakeErr","max":max,"err":format!("{e:?}")}));
+                        out.push(json!({"ev":"TakeErr","max":max,"err":e}));
                     }
                 }
             }
@@ -408,7 +450,7 @@ pub fn random_run(rng: &mut StdRng, n_events: usize) -> RunSpec {
                 }
             }
             front[w as usize] = std::cmp::max(f, base - 1);
-            acts.push(RAct::Gap { w, start, base, set });
+            acts.push(RAct::Gap { w, start, base, set, nbits: if rng.gen_bool(0.5) { rng.gen_range(1..4) } else { 0 }, dirty: rng.gen_bool(0.5) });
         } else if r < 77 {
             acts.push(RAct::Unmatch { w });
             acts.push(RAct::Match { w });
@@ -419,10 +461,10 @@ pub fn random_run(rng: &mut StdRng, n_events: usize) -> RunSpec {
                 1 => rng.gen_range(2..5),
                 _ => 10_000,
             };
-            acts.push(RAct::Take { max });
+            acts.push(RAct::Take { max, byinst: rng.gen_bool(0.25) });
         }
     }
-    acts.push(RAct::Take { max: 10_000 });
+    acts.push(RAct::Take { max: 10_000, byinst: false });
     RunSpec { reliable, acts, via_socket: false }
 }
 
@@ -458,7 +500,7 @@ pub fn hostile_specs(seed: u64, runs: usize) -> Vec<RunSpec> {
                         hb += 1;
                         acts.push(RAct::Heartbeat { w: 1, first: 1, last: sn, count: hb, fin: false });
                     }
-                    _ => acts.push(RAct::Take { max: 100 }),
+                    _ => acts.push(RAct::Take { max: 100, byinst: false }),
                 }
             }
         };
@@ -474,7 +516,7 @@ pub fn hostile_specs(seed: u64, runs: usize) -> Vec<RunSpec> {
         for s in 1..=sn {
             acts.push(RAct::Data { w: 1, sn: s });
         }
-        acts.push(RAct::Take { max: 10_000 });
+        acts.push(RAct::Take { max: 10_000, byinst: false });
         // the third and fourth round over the classes go through the socket and the UDPListener
         out.push(RunSpec { reliable: true, acts, via_socket: (k / (2 * classes.len())) % 2 == 1 });
     }
